@@ -57,7 +57,8 @@ def main():
                     y0 = st0(jnp.asarray(catalog.smooth_states(D0, N0, e0.channels(D0), task["seed"], count=1, amp=e0.amp)[0]))
                     warm["warm_dtype"] = str(y0.dtype)
             elif task["kind"] == "etdrk":
-                ex.etdrk.ETDRK2(0.1, jnp.asarray(z_lattice() / 0.1)[None, :], ex.nonlin_fun.PolynomialNonlinearFun(1, 4, coefficients=(0.0, 1.0)))
+                for order0 in (1, 2, 3, 4):  # fills whatever the integrators memoise (contour points ...) in single precision
+                    ex.stepper.Burgers(1, 1.0, 16, 0.1, order=order0)(jnp.zeros((1, 16)))
             jax.config.update("jax_enable_x64", True)
         out = {"x64": bool(jax.config.jax_enable_x64), "default_float": str(jnp.zeros(1).dtype), "items": []}
         if task["kind"] == "etdrk":
